@@ -13,6 +13,21 @@ CLAIMED = {
             "Trusted: the Redis double (answers +OK, records (db, command, args)), the reference removal model written from the documentation, synctest's virtual clock, the overlay rewriter (select/map order made a recorded choice). Standalone target only.",
             "deterministic simulation (synctest bubble, seeded scheduler, in-memory transport) + reference-model sequence oracle",
             "DESIGN.md §3 C01"),
+    "C02": ("fault_enumeration",
+            "Crash/restart as a simulator action on the real RedisOutput: sampled crashes at scheduler-chosen instants plus, for short recorded runs, a crash after EVERY prefix of the target's executed request sequence (each with a drawn number of in-flight requests still executed). The real StartPoint resumes the same stream; oracles: rewind-only/no-skip/right-DB over all incarnations, no repeat in transactional mode, and the state invariant 'stored position covers only absorbed writes, SELECTs and closed transactions' at every quiescent point. Workloads are sampled; the crash position is enumerated per workload.",
+            "Trusted: Redis double incl. MULTI/EXEC atomicity and 'a dying connection's open MULTI applies nothing'; process-death crash model; reference removal model; standalone target.",
+            "deterministic simulation + crash-point enumeration over the target's request sequence",
+            "DESIGN.md §3 C02"),
+    "C07": ("exploration",
+            "Same crash/restart simulation with idle-heavy strata (millisecond tickers firing before the first item after every (re)start): every value written to the offset field must be a fed command boundary or a start offset, never decrease, never be the undefined marker once a position exists, and a restart must find the stored position.",
+            "Trusted: as C02. One replication id per run.",
+            "deterministic simulation (virtual clock drives the three tickers) + checkpoint-write sequence oracle",
+            "DESIGN.md §3 C07"),
+    "C09": ("fault_enumeration",
+            "Transactional mode, transaction-heavy streams (longer/shorter than batch limits, adjacent, next to SELECT), crashes sampled and enumerated after every target-request prefix: every source transaction's commands execute inside one target MULTI/EXEC together with a position >= its EXEC offset, and no stored position ever lies inside a source transaction.",
+            "Trusted: as C02.",
+            "deterministic simulation + crash-point enumeration + transaction-block oracle",
+            "DESIGN.md §3 C09"),
 }
 
 NOT_APPLICABLE = {
